@@ -275,8 +275,8 @@ fn model_composition_p2_48() {
     model_composition::<2, 48, 30, 7>();
 }
 #[kani::proof]
-fn model_composition_p3_336() {
-    model_composition::<3, 336, 160, 16>();
+fn model_composition_p2_96() {
+    model_composition::<2, 96, 90, 7>();
 }
 snd!(send_p0, 12, 8, 16, 0, 0);
 
